@@ -1,5 +1,56 @@
 //@ item src/sources/generic.rs / struct NoIoDrop props=C16
 //@ enditem
+//@ if with_fdwrapper
+//@ region asrawfd_ext props=C19
+#[verifier::external_trait_specification]
+pub trait ExAsRawFd {
+    type ExternalTraitSpecificationFor: std::os::fd::AsRawFd;
+    /// ASSUMED: as_raw_fd returns the descriptor the value designates
+    fn as_raw_fd(&self) -> (r: std::os::fd::RawFd)
+        ensures r as int == crate::ext::fd_raw(self);
+}
+/// ASSUMED: the descriptor of the newtype wrapper is the descriptor of what it wraps
+#[verifier::external_body]
+proof fn axiom_fdwrapper_fd<T: AsRawFd>(a: &FdWrapper<T>)
+    ensures crate::ext::fd_raw(a) == crate::ext::fd_raw(&a.0),
+{}
+//@ endregion
+//@ item src/sources/generic.rs / struct FdWrapper props=C19
+//@ rw R6 1 <<pub struct FdWrapper<T: AsRawFd>(T);>> => <<pub struct FdWrapper<T: AsRawFd>(pub T);>>
+//@ enditem
+//@ open src/sources/generic.rs / impl FdWrapper<T>
+//@ item src/sources/generic.rs / impl FdWrapper<T> / fn new props=C19 ret=r
+//@ spec
+        ensures r.0 == inner,
+//@ enditem
+//@ close
+//@ open src/sources/generic.rs / impl ops::Deref for FdWrapper<T>
+//@ item src/sources/generic.rs / impl ops::Deref for FdWrapper<T> / type Target props=C19
+//@ enditem
+//@ item src/sources/generic.rs / impl ops::Deref for FdWrapper<T> / fn deref props=C19 ret=r
+//@ spec
+        ensures *r == self.0,
+//@ enditem
+//@ close
+//@ open src/sources/generic.rs / impl ops::DerefMut for FdWrapper<T>
+//@ item src/sources/generic.rs / impl ops::DerefMut for FdWrapper<T> / fn deref_mut props=C19 ret=r
+//@ spec
+        ensures *r == old(self).0, *final(r) == final(self).0,
+//@ enditem
+//@ close
+//@ open src/sources/generic.rs / impl AsFd for FdWrapper<T>
+//@ item src/sources/generic.rs / impl AsFd for FdWrapper<T> / fn as_fd props=C19
+//@ entry
+        proof { axiom_fdwrapper_fd(self); }
+//@ enditem
+//@ close
+//@ open src/sources/generic.rs / impl NoIoDrop<T>
+//@ item src/sources/generic.rs / impl NoIoDrop<T> / fn get_mut props=C19 ret=r
+//@ spec
+        ensures *r == old(self).val(), *final(r) == final(self).val(),
+//@ enditem
+//@ close
+//@ endif
 //@ item src/sources/generic.rs / struct Generic props=C16,C01
 //@ pre
 #[verifier::reject_recursive_types(E)]
@@ -20,6 +71,10 @@ proof fn axiom_noiodrop_fd<T>(a: &NoIoDrop<T>)
 //@ close
 
 //@ region generic_specs props=C16,C01,C07,C15
+impl<T> NoIoDrop<T> {
+    /// the wrapped object (ghost accessor for the private field)
+    pub closed spec fn val(&self) -> T { self.0 }
+}
 impl<F: AsFd, E> Generic<F, E> {
     /// token remembered at (re)registration, cleared at unregistration
     pub closed spec fn tok(&self) -> Option<Token> { self.token }
@@ -27,6 +82,8 @@ impl<F: AsFd, E> Generic<F, E> {
     pub closed spec fn has_file(&self) -> bool { self.file is Some }
     /// the descriptor of the wrapped object (ghost)
     pub closed spec fn raw(&self) -> int { crate::ext::fd_raw(&self.file->Some_0.0) }
+    /// the wrapped object (ghost)
+    pub closed spec fn obj(&self) -> F { self.file->Some_0.0 }
     pub closed spec fn want_interest(&self) -> Interest { self.interest }
     pub closed spec fn want_mode(&self) -> Mode { self.mode }
     /// the OS poller remembered at registration (to delete the fd on unwrap/drop)
@@ -38,12 +95,12 @@ impl<F: AsFd, E> Generic<F, E> {
 //@ item src/sources/generic.rs / impl Generic<F, std::io::Error> / fn new props=C16,C03 ret=r
 //@ spec
         ensures r.tok() is None, !r.has_poller(), r.has_file(),
-                r.want_interest() == interest, r.want_mode() == mode, r.raw() == crate::ext::fd_raw(&file),
+                r.want_interest() == interest, r.want_mode() == mode, r.raw() == crate::ext::fd_raw(&file), r.obj() == file,
 //@ enditem
 //@ item src/sources/generic.rs / impl Generic<F, std::io::Error> / fn new_with_error props=C16 ret=r
 //@ spec
         ensures r.tok() is None, !r.has_poller(), r.has_file(),
-                r.want_interest() == interest, r.want_mode() == mode, r.raw() == crate::ext::fd_raw(&file),
+                r.want_interest() == interest, r.want_mode() == mode, r.raw() == crate::ext::fd_raw(&file), r.obj() == file,
 //@ enditem
 //@ close
 
@@ -52,6 +109,15 @@ impl<F: AsFd, E> Generic<F, E> {
 //@ spec
         requires self.has_file(),
 //@ enditem
+//@ if with_fdwrapper
+//@ item src/sources/generic.rs / impl Generic<F, E> / fn get_mut props=C19 ret=r
+//@ spec
+        requires old(self).has_file(),
+        ensures *r == old(self).obj(), *final(r) == final(self).obj(), final(self).has_file(),
+                final(self).tok() == old(self).tok(), final(self).has_poller() == old(self).has_poller(),
+                final(self).want_interest() == old(self).want_interest(), final(self).want_mode() == old(self).want_mode(),
+//@ enditem
+//@ endif
 //@ slice src/sources/generic.rs / impl Generic<F, E> / fn unwrap :: body props=C16 name=Generic::unwrap
 //@ rw R16 * <<self>> => <<slf>>
 //@ sig
